@@ -4,6 +4,7 @@ import (
 	"encoding/json"
 	"fmt"
 	"strconv"
+	"strings"
 
 	"verif/internal/gen"
 	"verif/internal/harness"
@@ -19,7 +20,7 @@ func init() {
 			"rendered canonically and in 3 (quick) / 6 (thorough) random spellings: 0..3 spaces at every position the grammar marks optional (inside brackets, around , : == != < <= > >= =~ " +
 			"&& ||, after !, inside ?( ) and parentheses, leading/trailing, around filter operands), ' vs \" quotes, + sign / leading zeros on index and slice integers, .* vs [*], .name vs " +
 			"['name'], omitted leading $; judged: identical values, or errors of the same type reported for the same step INDEX (each spelling's own step texts map the reported text back " +
-			"to an index) with the same expected/found; a second segment takes RAW name text (letters, blanks, non-ASCII, DEL / C1, raw C0 control characters, escape sequences valid in both quote styles) and puts the very same characters between single and between double quotes - at root, after `..`, in a multi-name list and inside a filter - on a document that contains the decoded name when the text decodes: both quote styles must give the same values or the same error type; a third segment spells index, union, slice-bound and step integers of one and more digits (0..130, also negative) with `+`, one, two or three leading zeros and combinations, on arrays of up to 131 elements: every spelling must select what the plain decimal spelling selects; non-trivial = the spelling differs from the canonical text and the path has >= 2 steps or a filter; distinct = distinct (spelled text, document)",
+			"to an index) with the same expected/found; a second segment takes RAW name text (letters, blanks, non-ASCII, DEL / C1, raw C0 control characters, escape sequences valid in both quote styles) and puts the very same characters between single and between double quotes - at root, after `..`, in a multi-name list and inside a filter - on a document that contains the decoded name when the text decodes: both quote styles must give the same values or the same error type; a third segment spells index, union, slice-bound and step integers of one and more digits (0..130, also negative) with `+`, 1..40 leading zeros and combinations, on arrays of up to 131 elements: every spelling must select what the plain decimal spelling selects; non-trivial = the spelling differs from the canonical text and the path has >= 2 steps or a filter; distinct = distinct (spelled text, document)",
 		Assumptions: []string{"the renderer's list of insignificant variations is the one in the property statement"},
 		Plan: func(tier string, seed int64) *harness.Plan {
 			sys := newSysCases("quick")
@@ -234,7 +235,7 @@ func runC18Ints(c *harness.Ctx) {
 			v = -v
 		}
 		digits := strconv.FormatInt(v, 10)
-		zeros := "000"[:r.Intn(4)]
+		zeros := strings.Repeat("0", []int{0, 1, 2, 3, 1, 2, 17, 18, 19, 20, 21, 25, 40}[r.Intn(13)]) // also past any plausible length limit of an integer text
 		switch {
 		case neg:
 			return "-" + zeros + digits
